@@ -152,6 +152,9 @@ func workerMain() {
 		binary.LittleEndian.PutUint16(rep[17:], uint16(len(msg)))
 		out.Write(rep[:])
 		out.WriteString(msg)
+		// one verdict per job reaches the parent at once: if the next job kills this
+		// process, the parent knows exactly which one it was
+		out.Flush()
 	}
 }
 
@@ -218,6 +221,9 @@ func startWorker() (*worker, error) {
 	}
 	cmd.Stdout = pw
 	cmd.Stderr = nil
+	if os.Getenv("VERIF_WORKER_STDERR") != "" {
+		cmd.Stderr = os.Stderr
+	}
 	if err := cmd.Start(); err != nil {
 		return nil, err
 	}
